@@ -95,6 +95,7 @@ def run(tier, seed):
     res = vlib.Result(PID, tier, seed, level="proof")
     res.assumptions = [
         "the theorems are about Model/Script.v: a byte-for-byte transcription of prepareScript / the cast parser's role and multi-actor expansion (compared with the real functions on every run) and a mini-shell (cd, assignment with $NAME, set -a, exec >>file 2>&1, two state-preserving commands); bash itself is not modelled, its agreement with the mini-shell on the prepared scripts is observed by executing them",
+        "script text is compared as the shell reads it: the file must end with the user's command byte for byte (the model's), and the prologue before it must equal the model's line for line after dropping full-line comments (first non-blank character #, the shebang line excepted) and blank lines on both sides; the REAL file, comments included, is what bash executes in the execution cases",
         "work directories with a single quote, and for actions/cleanups with any shell-special character (the `echo output redirected to` line is unquoted), are outside the claim; so are action names that are not plain shell words",
         "`with` strings: NAME=word lists separated by ' ' or '; ' are covered by the theorems; values with $NAME references only by the executed cases; quoting inside values is outside",
         "a `with` clause that assigns TMPDIR, HOME or i itself overrides the prefix (statements are conditional)",
